@@ -310,15 +310,57 @@ void vf_lemma_sq_zero(void)
 __CPROVER_ensures(SQ[0] == 0 && SQ[1] == 1)
 __CPROVER_assigns();
 """
-SQRT_LOOP = """__CPROVER_assigns(val, pwr4, result, vf_k, vf_R)
+def sqrt_roles(fn_node):
+    """bind the roles {val} (remainder), {pwr4} (current power of four), {result} (accumulated root) of the abacus loop
+    to the names the source uses, from the shape `while( P != 0 ) { if( V >= ( R + P ) ) ...`"""
+    from vfx.extract import kids
+    from vfx.core import Undecided
+
+    def strip(n):
+        while n.get('kind') in ('ImplicitCastExpr', 'ParenExpr', 'CXXStaticCastExpr', 'CStyleCastExpr', 'CXXFunctionalCastExpr'):
+            n = kids(n)[-1]
+        return n
+
+    def find(n, kind):
+        if n.get('kind') == kind:
+            return n
+        for c in kids(n):
+            r = find(c, kind)
+            if r:
+                return r
+        return None
+    w = find(fn_node, 'WhileStmt') if fn_node else None
+    if not w:
+        raise Undecided('sqrt_abacus: no while loop found')
+    cond = strip(kids(w)[0])
+    if cond.get('kind') != 'BinaryOperator' or cond.get('opcode') != '!=' or strip(kids(cond)[0]).get('kind') != 'DeclRefExpr':
+        raise Undecided('sqrt_abacus: loop condition is not `P != 0`')
+    pwr4 = strip(kids(cond)[0])['referencedDecl']['name']
+    iff = find(kids(w)[1], 'IfStmt')
+    c = strip(kids(iff)[0]) if iff else {}
+    if c.get('kind') != 'BinaryOperator' or c.get('opcode') != '>=':
+        raise Undecided('sqrt_abacus: loop body does not start with `if( V >= ( R + P ) )`')
+    v = strip(kids(c)[0])
+    sm = strip(kids(c)[1])
+    if v.get('kind') != 'DeclRefExpr' or sm.get('kind') != 'BinaryOperator' or sm.get('opcode') != '+':
+        raise Undecided('sqrt_abacus: comparison shape')
+    a, b = strip(kids(sm)[0]), strip(kids(sm)[1])
+    names = [x['referencedDecl']['name'] for x in (a, b) if x.get('kind') == 'DeclRefExpr']
+    if len(names) != 2 or pwr4 not in names:
+        raise Undecided('sqrt_abacus: sum shape')
+    result = [x for x in names if x != pwr4][0]
+    return {'val': v['referencedDecl']['name'], 'pwr4': pwr4, 'result': result}
+
+
+SQRT_LOOP = """__CPROVER_assigns({val}, {pwr4}, {result}, vf_k, vf_R)
 __CPROVER_loop_invariant(-1 <= vf_k && vf_k <= 31 && vf_R < (1ul << 32))
-__CPROVER_loop_invariant(pwr4 == (vf_k >= 0 ? (1ul << (2 * (vf_k >= 0 ? vf_k : 0))) : 0ul))
-__CPROVER_loop_invariant((vf_R & ((1ul << (vf_k + 1)) - 1)) == 0 && result == (vf_R << (vf_k + 1)))
-__CPROVER_loop_invariant(SQ[vf_R] <= vf_N && val + SQ[vf_R] == vf_N)
-__CPROVER_loop_invariant((unsigned __int128)val < ((unsigned __int128)vf_R << (vf_k + 2)) + ((unsigned __int128)1 << (2 * vf_k + 2)))
-__CPROVER_decreases(pwr4)"""
+__CPROVER_loop_invariant({pwr4} == (vf_k >= 0 ? (1ul << (2 * (vf_k >= 0 ? vf_k : 0))) : 0ul))
+__CPROVER_loop_invariant((vf_R & ((1ul << (vf_k + 1)) - 1)) == 0 && {result} == (vf_R << (vf_k + 1)))
+__CPROVER_loop_invariant(SQ[vf_R] <= vf_N && {val} + SQ[vf_R] == vf_N)
+__CPROVER_loop_invariant((unsigned __int128){val} < ((unsigned __int128)vf_R << (vf_k + 2)) + ((unsigned __int128)1 << (2 * vf_k + 2)))
+__CPROVER_decreases({pwr4})"""
 SQRT_GHOST = {
-    (SQRT_ABACUS, ('loop_before', 1)): 'unsigned long vf_N = val; int vf_k = (pwr4 == 0) ? -1 : (63 - __builtin_clzl(pwr4)) / 2; unsigned long vf_R = 0; vf_lemma_sq_zero();',
+    (SQRT_ABACUS, ('loop_before', 1)): 'unsigned long vf_N = {val}; int vf_k = ({pwr4} == 0) ? -1 : (63 - __builtin_clzl({pwr4})) / 2; unsigned long vf_R = 0; vf_lemma_sq_zero();',
     (SQRT_ABACUS, ('if_then_begin', 2)): 'vf_lemma_sq_step(vf_R, vf_k); vf_R += 1ul << vf_k;',
     (SQRT_ABACUS, ('loop_body_end', 1)): 'vf_k -= 1;',
 }
@@ -327,7 +369,7 @@ U('C13', 'c13.abacus.loop', SQRT_ABACUS, 'pre_valid1', None, cxx='fixedmath::det
                  '(__CPROVER_return_value.v >= 0 && __CPROVER_return_value.v < (1l << 32) && '
                  'SQ[__CPROVER_return_value.v] <= ((unsigned long)$1.v << 16) && '
                  '((unsigned long)$1.v << 16) - SQ[__CPROVER_return_value.v] <= 2ul * (unsigned long)__CPROVER_return_value.v)'],
-  prelude=SQ_PRELUDE, needs=['vf_isnan'], loop_contracts={1: SQRT_LOOP}, ghost=SQRT_GHOST, replace_raw=['vf_lemma_sq_step', 'vf_lemma_sq_zero'],
+  prelude=SQ_PRELUDE, needs=['vf_isnan'], loop_contracts={1: SQRT_LOOP}, ghost=SQRT_GHOST, role_binder=sqrt_roles, replace_raw=['vf_lemma_sq_step', 'vf_lemma_sq_zero'],
   backends=('kissat', 'z3'), timeout=600, split=True, expect_props=['loop_invariant_base', 'loop_invariant_step', 'loop_decreases'])
 U('C13', 'c13.abacus.small.bounded', SQRT_ABACUS, 'pre_c13_small', 'post_sqrt', cxx='fixedmath::detail::sqrt_abacus($1)',
   unwind=20, backends=('kissat', 'cadical'), timeout=600, bounded='x.v < 2^14, loop unwound 20 times with unwinding assertion', note='BOUNDED (x.v < 2^14, loop unwound 20 times with unwinding assertion): real-square postcondition, not counted as the unbounded proof')
@@ -505,13 +547,14 @@ E('C12', c12_scan_std)
 prop('C14', 'other',
      'Proved for all |a|,|b| < 2^31 under both sqrt configurations: hypot returns a finite non-negative value, every '
      'shift is valid and uhi*uhi + ulo*ulo never wraps (CBMC with the unsigned-overflow check switched on for this '
-     'unit, sqrt replaced by a linear consequence of its one-ulp contract). hypot(a,b) == hypot(b,a) == hypot(|a|,|b|) '
-     '-- this symmetry lemma did NOT close on any back end within 15 minutes (two inlined copies of the 64-bit squaring circuits) and is covered by the native stand-in only. The accuracy clause '
+     'unit, sqrt replaced by a linear consequence of its one-ulp contract). hypot(a,b) == hypot(b,a) == hypot(|a|,|b|) == '
+     'hypot(-a,b) == hypot(a,-b): cut-point lemma -- all five calls reach the point after operand normalisation with the '
+     'same (uhi, ulo) (ghost observations compared in the lemma contract, CBMC) and the code after that point reads '
+     'neither parameter (dataflow check on the AST), so the results are equal by determinism. The accuracy clause '
      '(2 ulp / relative 1.5e-4 against the real root of a^2+b^2) is a non-linear fact over three scaling branches that '
      'did not close in NIA; it is decided by a bounded native stand-in (random log-uniform pairs, all power-of-two '
      'boundary pairs, the band that used to wrap) under both algorithms.',
-     technique='CBMC contracts + kissat (no wrap, valid shifts, non-NaN, non-negative); bounded native stand-in for accuracy and symmetry',
-     not_decided=['symmetry / sign-insensitivity is not decided deductively (relational lemma over two inlined copies did not close); native stand-in only'],
+     technique='CBMC contracts + kissat (no wrap, valid shifts, non-NaN, non-negative), cut-point lemma with ghost observations for symmetry; bounded native stand-in for accuracy',
      assumptions=['sqrt contract: one-ulp (proved for abacus in C13/C12 lemma, assumed for std::sqrt)', 'long double sqrtl as the oracle of the stand-in'])
 HYPOT = '_ZN9fixedmath5hypotENS_7fixed_tES0_'
 K_SQRT_HYP = (SQRT, 'pre_sqrt_hyp', 'post_sqrt_hyp')
@@ -520,16 +563,43 @@ for cfg in ('abacus', 'stdsqrt'):
       extra_flags=['--unsigned-overflow-check'], backends=MULBE, timeout=900, native_post='native_hypot_ok')
 U('C14', 'c14.sqrt_bound', 'lem_c14_sqrt_bound', 'pre_c14_sqrtb', None, lemma=True, cxx='lem_c14_sqrt_bound($1,$2)', **INTQ)
 
+def hypot_roles(fn_node):
+    """{uhi}, {ulo}: the two normalised operands compared by the third top-level `if( A < B )` of hypot"""
+    from vfx.extract import kids
+    from vfx.core import Undecided
+    body = [c for c in kids(fn_node) if c.get('kind') == 'CompoundStmt'][0]
+    ifs = [c for c in kids(body) if c.get('kind') == 'IfStmt']
+    if len(ifs) < 3:
+        raise Undecided('hypot: fewer than three top-level if statements')
+    c = kids(ifs[2])[0]
+    while c.get('kind') in ('ImplicitCastExpr', 'ParenExpr'):
+        c = kids(c)[-1]
+    ops = [x for x in kids(c)]
+    def name(x):
+        while x.get('kind') in ('ImplicitCastExpr', 'ParenExpr'):
+            x = kids(x)[-1]
+        return x.get('referencedDecl', {}).get('name') if x.get('kind') == 'DeclRefExpr' else None
+    if c.get('kind') != 'BinaryOperator' or c.get('opcode') != '<' or not name(ops[0]) or not name(ops[1]):
+        raise Undecided('hypot: third if is not `A < B` on two locals')
+    return {'uhi': name(ops[0]), 'ulo': name(ops[1])}
+
+
+def hypot_params(fn_node):
+    from vfx.extract import kids
+    return [c['name'] for c in kids(fn_node) if c.get('kind') == 'ParmVarDecl']
+
+
 OBS_PRELUDE = """
 unsigned long vf_obs_hi[8]; unsigned long vf_obs_lo[8]; int vf_obs_n;   /* ghost: operands observed at the cut point of hypot */
 """
 U('C14', 'c14.symmetry.cut', 'lem_c14_cut', 'pre_c14', None, lemma=True, cxx='lem_c14_cut($1,$2)',
-  prelude=OBS_PRELUDE, ghost={(HYPOT, ('after_if', 3)): 'vf_obs_hi[vf_obs_n] = uhi; vf_obs_lo[vf_obs_n] = ulo; vf_obs_n = vf_obs_n + 1;'},
+  prelude=OBS_PRELUDE, ghost={(HYPOT, ('after_if', 3)): 'vf_obs_hi[vf_obs_n] = {uhi}; vf_obs_lo[vf_obs_n] = {ulo}; vf_obs_n = vf_obs_n + 1;'},
+  role_binder=hypot_roles, role_fn=HYPOT,
   requires_extra=['vf_obs_n == 0'],
   ensures_extra=['vf_obs_n == 5 && vf_obs_hi[0] == vf_obs_hi[1] && vf_obs_hi[0] == vf_obs_hi[2] && vf_obs_hi[0] == vf_obs_hi[3] && vf_obs_hi[0] == vf_obs_hi[4]'
                  ' && vf_obs_lo[0] == vf_obs_lo[1] && vf_obs_lo[0] == vf_obs_lo[2] && vf_obs_lo[0] == vf_obs_lo[3] && vf_obs_lo[0] == vf_obs_lo[4]'],
   assigns_extra=['vf_obs_n', '__CPROVER_object_whole(vf_obs_hi)', '__CPROVER_object_whole(vf_obs_lo)'],
-  cut_check=(HYPOT, 3, ['lh', 'rh']),
+  cut_check=(HYPOT, 3, 'PARAMS'),
   replace=[(SQRT, 'UF', 'post_sqrt_hyp')], backends=MULBE, timeout=900, no_canary=False)
 
 
@@ -649,7 +719,7 @@ for t in ('d', 'f'):
 U('C07', 'c07.literal.int', '_ZN9fixedmathli4_fixEy', None, None, cxx='fixedmath::operator""_fix($1)', **UB)
 # sqrt / hypot under both configurations
 U('C07', 'c07.pwr4', PWR4, None, None, cxx='fixedmath::detail::highest_pwr4_clz($1)', **UB)
-U('C07', 'c07.sqrt_abacus', SQRT_ABACUS, None, None, cxx='fixedmath::detail::sqrt_abacus($1)', prelude=SQ_PRELUDE, loop_contracts={1: SQRT_LOOP}, ghost=SQRT_GHOST,
+U('C07', 'c07.sqrt_abacus', SQRT_ABACUS, None, None, cxx='fixedmath::detail::sqrt_abacus($1)', prelude=SQ_PRELUDE, loop_contracts={1: SQRT_LOOP}, ghost=SQRT_GHOST, role_binder=sqrt_roles,
   replace_raw=['vf_lemma_sq_step', 'vf_lemma_sq_zero'], backends=('kissat', 'z3'), timeout=600, split=True, ub_only=True,
   expect_props=['loop_invariant_base', 'loop_invariant_step', 'loop_decreases'])
 U('C07', 'c07.sqrt_std', SQRT_STD, None, None, cxx='fixedmath::detail::sqrt_std_math($1)', prelude=VF_SQRT_PRELUDE, replace_raw=['vf_sqrt'], ub_only=True, backends=('sat', 'kissat'), timeout=300)
